@@ -1,7 +1,9 @@
 package authgrants
 
 import (
+	"errors"
 	"fmt"
+	"io"
 	"net"
 
 	"github.com/sirupsen/logrus"
@@ -79,6 +81,12 @@ func (p *principalInstance) handleIntentRequest() error {
 	i, err := ReadIntentRequest(p.delegateConn)
 	if err != nil {
 		logrus.Errorf("principal: error reading ir: %s", err)
+		if !errors.Is(err, io.EOF) {
+			// A request arrived but cannot be used (malformed, or of a grant type
+			// that cannot be carried): it is answered before giving up on the
+			// connection, so that the delegate is not left waiting.
+			WriteIntentDenied(p.delegateConn, MalformedIntentDen)
+		}
 		return err
 	}
 	logrus.Info("principal: read an ir")
